@@ -55,6 +55,22 @@ def pick_value(p, rng):
     return None
 
 
+def _models(extract):
+    """(object handed to ReadParameter as `model`, module objects holding a ParameterDict): every GEOPHIRES configuration family, then HIP-RA-X"""
+    for fam, settings in list(extract.FAMILIES):
+        try:
+            m = extract.instantiate_family(settings)
+        except Exception:
+            continue
+        yield m, [getattr(m, a, None) for a in extract.MODULES]
+    try:
+        from hip_ra_x.hip_ra_x import HIP_RA_X
+        h = HIP_RA_X(enable_hip_ra_logging_config=False)
+        yield h, [h]
+    except Exception:
+        return
+
+
 def unit_level(chk: core.Check, ext):
     import geophires_x.Model  # noqa: F401
     from geophires_x.Parameter import ConvertUnitsBack, ParameterEntry, ReadParameter, floatParameter
@@ -66,12 +82,8 @@ def unit_level(chk: core.Check, ext):
     done = set()
     lines, meta = [], {}
     n = 0
-    for fam, settings in list(extract.FAMILIES):
-        try:
-            m = extract.instantiate_family(settings)
-        except Exception:
-            continue
-        for mod in [getattr(m, a, None) for a in extract.MODULES]:
+    for m, mods in _models(extract):
+        for mod in mods:
             if mod is None or not hasattr(mod, 'ParameterDict') or type(mod).__name__ in ('Outputs', 'OutputsAddOns', 'OutputsS_DAC_GT'):
                 continue
             cls = type(mod).__name__
@@ -131,12 +143,8 @@ def unit_level(chk: core.Check, ext):
             if len(by_type[(c['utype'], c['given'])]) < 3 and c['x'] not in [t[0] for t in by_type[(c['utype'], c['given'])]]:
                 by_type[(c['utype'], c['given'])].append((c['x'], c['text']))
     live = {}
-    for fam, settings in list(extract.FAMILIES):
-        try:
-            m2 = extract.instantiate_family(settings)
-        except Exception:
-            continue
-        for mod in [getattr(m2, a, None) for a in extract.MODULES]:
+    for m2, mods in _models(extract):
+        for mod in mods:
             if mod is None or not hasattr(mod, 'ParameterDict') or type(mod).__name__ in ('Outputs', 'OutputsAddOns', 'OutputsS_DAC_GT'):
                 continue
             for key, p in mod.ParameterDict.items():
